@@ -10,6 +10,7 @@
 From Coq Require Import ZArith List String.
 From Verif Require Import Model.Effects Proofs.EffectsProofs Proofs.EffectsDocumented Proofs.EffectsVerdictRecv.
 From Verif Require Gen.EffectsIR Gen.BigIntRoutines Proofs.BigIntEqRecv Model.BabyJub Model.Eddsa Model.Outcome.
+From Verif Require Gen.BigIntLoops Proofs.BigIntEqLoopsMul.
 Import ListNotations.
 Local Open Scope string_scope.
 
@@ -68,7 +69,17 @@ Theorem C19_sig_decompress_receiver_value : forall s0 buf, List.length buf = 64%
   end.
 Proof. exact BigIntEqRecv.gen_babyjub_Signature_Decompress__recv_eq. Qed.
 
+(* ---- the LOOPS of the Go source: tools/bigintgen re-translates the whole functions, loops
+   included, at every run (Gen/BigIntLoops.v: a Go `for` becomes a fold over its index range
+   with the loop-carried variables as accumulator); the translated function equals the model
+   the theorems above are about ---- *)
+Theorem C19_mul_loop_receiver_value :
+  (forall p0 s q, BigIntLoops.babyjub_Point_Mul__recv p0 s q = BabyJub.Mul s q) /\
+  (forall p0 s, BigIntLoops.babyjub_Point_Mul__recv_aliased p0 s = BabyJub.Mul s p0).
+Proof. exact (conj BigIntEqLoopsMul.gen_babyjub_Point_Mul__recv_eq BigIntEqLoopsMul.gen_babyjub_Point_Mul__recv_aliased_eq). Qed.
+
 Print Assumptions C19_mul_receiver_value.
 Print Assumptions C19_decompress_receiver_value.
 Print Assumptions C19_verdict.
 Print Assumptions C19_receiver_is_result.
+Print Assumptions C19_mul_loop_receiver_value.
